@@ -58,10 +58,8 @@ def cmdEncode (head payload : String) : String :=
 def feedChunks (cfg : DecodeCfg) : Decoder → List Bytes → List Packet → Option DecErr → (List Packet × Option DecErr)
   | _, [], acc, err => (acc, err)
   | d, c :: cs, acc, err =>
-    if d.state == .terminal then feedChunks cfg d cs acc (err.orElse (fun _ => some .decodingFailure))
-    else
-      let r := feed cfg d c
-      feedChunks cfg r.dec cs (acc ++ r.packets) (err.orElse (fun _ => r.err))
+    let r := decodeBytes cfg d c
+    feedChunks cfg r.dec cs (acc ++ r.packets) (err.orElse (fun _ => r.err))
 
 def cmdDecode (head : String) : String :=
   let (_, kv) := splitKv head
